@@ -15,6 +15,15 @@ class BoomA(AttributeError):
         self.eid = eid
 
 
+class BoomT(TypeError):
+    """a TypeError raised by the *body* of __conform__: must propagate (only the call machinery's own TypeError, from
+    calling an unbound method of a class object, is treated as "no __conform__")"""
+
+    def __init__(self, eid):
+        TypeError.__init__(self, eid)
+        self.eid = eid
+
+
 class Val:
     def __init__(self, k):
         self.k = k
@@ -51,7 +60,7 @@ def run(lines, out, args):
         raised = {}
 
         def boom(e, attr=False):
-            raised[e] = (BoomA if attr else Boom)(e)
+            raised[e] = (BoomT if attr == "T" else BoomA if attr else Boom)(e)
             return raised[e]
 
         depth = [0]
@@ -67,6 +76,25 @@ def run(lines, out, args):
             def getter(self, e=int(cf[1:])):
                 raise boom(e)
             Ob = type("Ob", (), {"__conform__": property(getter)})
+        elif cf == "U":
+            # the object is a class whose *instances* conform: calling the unbound method with the interface alone is
+            # the call machinery's TypeError, which the statement treats as "no __conform__"
+            def conform(self, iface):
+                log.append("c")
+                return val(99)
+            Ob = type("Ob", (), {"__conform__": conform})
+        elif cf.startswith("i"):
+            # __conform__ is a plain function stored on the instance (no __self__)
+            def conformi(iface, cf=cf[1:]):
+                log.append("c")
+                if iface is not I:
+                    log.append("WRONG-ARG")
+                if cf == "n":
+                    return None
+                if cf.startswith("v"):
+                    return val(int(cf[1:]))
+                raise boom(int(cf[1:]), "T" if cf[0] == "T" else cf[0] == "Q")
+            Ob = type("Ob", (), {})
         else:
             def conform(self, iface, cf=cf):
                 log.append("c")
@@ -76,9 +104,11 @@ def run(lines, out, args):
                     return None
                 if cf.startswith("v"):
                     return val(int(cf[1:]))
-                raise boom(int(cf[1:]), cf[0] == "Q")
+                raise boom(int(cf[1:]), "T" if cf[0] == "T" else cf[0] == "Q")
             Ob = type("Ob", (), {"__conform__": conform})
-        ob = Ob()
+        ob = Ob if cf == "U" else Ob()
+        if cf.startswith("i"):
+            ob.__conform__ = conformi
         # the interface (custom __adapt__ through interfacemethod, or the plain one)
         if cu == "-":
             I = IX
@@ -162,7 +192,7 @@ def run(lines, out, args):
                 got = "val 0"
             else:
                 got = "other %r" % (r,)
-        except (Boom, BoomA) as e:
+        except (Boom, BoomA, BoomT) as e:
             got = "exc %d" % e.eid if raised.get(e.eid) is e else "exc-copy %d" % e.eid
         except TypeError as e:
             if e.args == ("Could not adapt", ob, I):
